@@ -645,8 +645,9 @@ inductive FdResp where
   | err (e : IoErr)
   deriving DecidableEq, Repr
 
-/-- Behaviour of file descriptor 1: the response to its `i`-th operation. -/
-abbrev Fd := Nat → FdResp
+/-- Behaviour of file descriptor 1: the response to its `i`-th operation when
+it has accepted `n` bytes so far (`fd i n`). -/
+abbrev Fd := Nat → Nat → FdResp
 
 /-- State of file descriptor 1: number of operations so far, bytes accepted
 (= what the consumer of standard output can see), and whether any operation
@@ -665,14 +666,14 @@ def isEpipe : IoErr → Bool
 
 /-- `write(1, buf)`. -/
 def fdWrite (fd : Fd) (s : FdSt) (buf : Bytes) : Except IoErr Nat × FdSt :=
-  match fd s.ops with
+  match fd s.ops s.accepted.length with
   | .all => (.ok buf.length, { s with ops := s.ops + 1, accepted := s.accepted ++ buf })
   | .upTo n => (.ok (min n buf.length), { s with ops := s.ops + 1, accepted := s.accepted ++ buf.take n })
   | .err e => (.error e, { s with ops := s.ops + 1, epipe := s.epipe || isEpipe e })
 
 /-- `flush` on standard output below xt's `BufWriter`. -/
 def fdFlush (fd : Fd) (s : FdSt) : Except IoErr Unit × FdSt :=
-  match fd s.ops with
+  match fd s.ops s.accepted.length with
   | .err e => (.error e, { s with ops := s.ops + 1, epipe := s.epipe || isEpipe e })
   | _ => (.ok (), { s with ops := s.ops + 1 })
 
